@@ -1066,15 +1066,12 @@ def run(ctx):
                 small = shrink_tree(t, fails_plain)
             b2 = hunt_one(impl, small, pos) or bad
             kn2 = known_shape(small)
-            if len(kn2) == 1:
-                fp = list(kn2)[0]
-            elif kn2:
-                fp = "+".join(sorted(kn2))
-            else:
-                fp = "expr:%s:%s" % (b2[0], shape(small))
-            ctx.violation(fp, "%s: %s" % (b2[0], b2[1]),
-                          {"tree": repr(small), "source": render(small), "position": pos[0], "kind": b2[0],
-                           "original_source": src, "model_norm": model["norm"] if model else None})
+            # a minimal tree that still needs several listed defect shapes at once is reported under each of them
+            fps = sorted(kn2) if kn2 else ["expr:%s:%s" % (b2[0], shape(small))]
+            for fp in fps:
+                ctx.violation(fp, "%s: %s" % (b2[0], b2[1]),
+                              {"tree": repr(small), "source": render(small), "position": pos[0], "kind": b2[0],
+                               "original_source": src, "model_norm": model["norm"] if model else None})
     ctx.coverage["origin_histogram"] = hist
     if mouts is not None:
         ctx.obligation("correspondence O-expr (model norm = stored string of mappyfile for every generated tree and position)", n_bad == 0,
